@@ -259,6 +259,9 @@ class Spec(spec_tree.Spec):
             d = dict(x.split('=') for x in t[2:])        # the spelling of the root does not matter
             self.pops[t[1]] = {'nest': d['nest'] == '1', 'trim': d['trim'] == '1', 'rules': []}
         elif t[0] == 'rule':
+            if self.pos < len(self.obs) and self.obs[self.pos].startswith('rule-raised'):
+                self.fail('C16:add-rule-raised', f'{ln}: adding a rule must not fail (the extra arguments are handed '
+                          f'on to the factory as they are): `{self.next()}`')
             d = dict(x.split('=', 1) for x in t[3:])
             exts = [] if d['exts'] == '-' else d['exts'].split(',')
             self.pops[t[1]]['rules'].append((t[2][1:], d['fac'], exts, d['args']))
